@@ -354,3 +354,66 @@ def c15_5(run):
     if not n_pub:
         raise Inconclusive('vacuity: nothing published')
     run.require_reached(*run.cur.reach)
+
+
+# ----------------------------------------------------------------------------------------------------------------- C15-6
+@obligation('C15', 'C15-6 ProposalHandler::prepare_proposal: a vote whose extension fails verification is pruned to a wholly absent vote, all others are kept untouched, and the pruned commit must pass validate_vote_extensions')
+def c15_6(run):
+    def h_clear(ctx):
+        b = ctx.ex.deref_val(ctx.st, ctx.args[0]); b.attrs['cleared'] = True
+        return [(None, ())]
+    hooks = [(re.compile(r'^(app::vote_extension::)?validate_vote_extensions(::<.*>)?$'), oracle_hook('vote_extensions', True)),
+             (re.compile(r'^(app::vote_extension::)?verify_vote_extension$'), oracle_hook('verify_vote_extension', False, lambda s: M.new_map('HashSet<u64>', []))),
+             (re.compile(r'^(app::vote_extension::)?get_id_to_currency_pair(::<.*>)?$'), oracle_hook('id_mapping', True, lambda s: M.new_map('IndexMap<CurrencyPairId, CurrencyPairInfo>', []))),
+             (re.compile(r'get_max_num_currency_pairs(::<.*>)?$'), oracle_hook('max_pairs', True, lambda s: z3.BitVec('max_pairs', 64))),
+             (re.compile(r'^<(bytes::)?Bytes as Clone>::clone$'), lambda ctx: [(None, ctx.ex.deref_val(ctx.st, ctx.args[0]))]),
+             (re.compile(r'^(bytes::)?Bytes::clear$'), h_clear),
+             (re.compile(r'ExtendedCommitInfoWithCurrencyPairMapping::new$'), lambda ctx: [(None, B.struct(ctx.ex, 'ExtendedCommitInfoWithCurrencyPairMapping', extended_commit_info=ctx.args[0], id_to_currency_pair=ctx.args[1]))]),
+             (re.compile(r'try_base_prefixed'), oracle_hook('base_prefixed', True, lambda s: Obj('Address', kind='opaque')))]
+    ex, W = A.engine(extra_hooks=ve_hooks() + hooks)
+    f = ex.find(r'vote_extension::<impl at [^>]*>::prepare_proposal$')
+    run.bound(votes='extended commits with 0..2 votes', height='all u64', callees='verify_vote_extension, validate_vote_extensions, the id mapping lookup are oracles that may fail')
+    n_ok = 0
+    for n in (0, 1, 2):
+        votes = [mk_vote(ex, i) for i in range(n)]
+        for i_, (v, m_) in enumerate(votes):
+            si, code = mk_siginfo(f'v{i_}')
+            a = ex.adts.lookup(EVI); v.fields[(None, a['fields'].index('sig_info'))] = si
+            v.attrs['tag'] = f'vote{i_}'
+        eci = B.struct(ex, 'tendermint::abci::types::ExtendedCommitInfo', round=z3.BitVec('round', 32), votes=M.new_vec('Vec<ExtendedVoteInfo>', [v for v, _ in votes]))
+        height = z3.BitVec('height', 64)
+        st = ex.start(f, [B.cell(Obj('S', kind='cell')), height, eci], world=dict(initial_world()))
+        for i, p in enumerate(run.explore(ex, st, poll=True, allow_havoc=(r'^Arguments::|fmt::', r'IndexMap'))):
+            lab = f'[{n} votes, path {i}]'
+            if p.kind != 'return':
+                run.prove(f'no panic {lab}', p.pc, z3.BoolVal(False), detail=p.info); continue
+            kind, r = poll_result(p)
+            orc = {}
+            for e in p.log:
+                if e[0] == 'oracle':
+                    orc.setdefault(e[1], []).append(e[2])
+            run.sample({'votes': n, 'path': i, 'result': kind, 'oracles': {k: len(v) for k, v in orc.items()}})
+            if kind != 'Ok':
+                continue
+            n_ok += 1
+            res = ex.deref_val(p, r.fields[('Ok', 0)])
+            out_eci = ex.deref_val(p, B.fld(ex, p, res, 'extended_commit_info', 'ExtendedCommitInfo'))
+            out_votes = [ex.deref_val(p, x) for x in B.fld(ex, p, out_eci, 'votes', 'Vec<ExtendedVoteInfo>').attrs['items']]
+            a = ex.adts.lookup(EVI)
+            claim = [z3.Or(height == 1, z3.BoolVal(len(orc.get('verify_vote_extension', [])) == n and len(orc.get('vote_extensions', [])) == 1)), z3.BoolVal(len(out_votes) == n)]
+            if len(out_votes) == n:
+                for j, ov in enumerate(out_votes):
+                    okj = orc['verify_vote_extension'][j] if len(orc.get('verify_vote_extension', [])) == n else z3.BoolVal(True)
+                    si = ex.deref_val(p, ov.fields[(None, a['fields'].index('sig_info'))])
+                    sig = ex.deref_val(p, ov.fields[(None, a['fields'].index('extension_signature'))])
+                    ext = ex.deref_val(p, ov.fields[(None, a['fields'].index('vote_extension'))])
+                    untouched = z3.BoolVal('code' in si.attrs and str(si.attrs['code']) == f'v{j}_sig_info' and not ext.attrs.get('cleared') and not (isinstance(sig.discr, str) and sig.discr == 'None'))
+                    flag = si.fields.get(('Flag', 0)) if isinstance(si, Obj) else None
+                    fname = (flag.discr if isinstance(flag, Obj) else None) or (flag.attrs.get('const', '') if isinstance(flag, Obj) else '')
+                    pruned = z3.BoolVal('Absent' in str(fname) and bool(ext.attrs.get('cleared')) and isinstance(sig.discr, str) and sig.discr == 'None')
+                    claim.append(z3.Or(height == 1, z3.If(okj, untouched, pruned)))
+                claim.append(z3.Or(height == 1, z3.And(*orc.get('vote_extensions', [z3.BoolVal(False)]))))
+            run.prove(f'Ok => (height 1, or) every vote is kept untouched iff its extension verified and otherwise pruned to a wholly absent vote; the pruned commit passed validate_vote_extensions {lab}', p.pc, z3.And(*claim))
+    if not n_ok:
+        raise Inconclusive('vacuity: no accepting path')
+    run.require_reached(*run.cur.reach)
